@@ -35,6 +35,7 @@ class RefMDP:
         n, m = spec["n"], spec["m"]
         self.n, self.m = n, m
         self.gamma = float(spec["gamma"])
+        self.large = bool(spec.get("large", False)) and (float(spec["gamma"]) < 1.0 or spec.get("flavour") in ("ssp", "dproper"))
         T = np.zeros((n, m, n))
         R = np.zeros((n, m, n))
         W = np.zeros((n, m, n), dtype=int)
@@ -186,6 +187,8 @@ class RefMDP:
     def optimal(self, zero=None, gamma=None):
         """V*, Q* by deterministic-policy enumeration. `zero`: states treated as worth-0
         exits (absorbing states by default). For gamma == 1 values may be -inf."""
+        if self.large and gamma is None:
+            return self.optimal_large(zero=zero)      # tens of states: certified policy iteration instead of enumeration
         gamma = self.gamma if gamma is None else gamma
         zero = self.absorbing if zero is None else zero
         n = self.n
